@@ -458,6 +458,53 @@ def storeOfNodesR (st : StructTable) (nf : Nat) (nm : List String → String) (n
         | some (t, src) => indicesOf (evalRT st nf (storeOfNodesR st nf nm nodes info O n) f t src)
         | none => [] }
 
+/-! ### the fragment of the refinement with map calls of run-time size -/
+
+mutual
+/-- `treeOk` + ARRAY-mode map calls of run-time size whose callee's outputs contain neither the
+call's own split nor a merge over it -/
+def treeOkP (above : List String) : STree → Bool
+  | .node _ => true
+  | .sub c _ _ ok ch => ok && !above.contains c && treeOkPList (above ++ [c]) ch
+  | .guard _ ch => treeOkPList above ch
+  | .subR c m _ _ ok ch => ok && !m && !above.contains c && treeOkPList (above ++ [c]) ch
+def treeOkPList (above : List String) : List STree → Bool
+  | [] => true
+  | t :: ts => treeOkP above t && treeOkPList above ts
+end
+
+mutual
+/-- the recorded index sets of the store are those of the collections the calls were split over,
+and not empty — checked along the forks that exist (the enumeration of `instsT`) -/
+def idxOkT (st : StructTable) (nf : Nat) (ρ : Store) : ForkAssign → STree → Bool
+  | _, .node _ => true
+  | f, .sub c _ ixs _ ch => ixs.all fun ix => idxOkTList st nf ρ (fset f c ix) ch
+  | f, .guard _ ch => idxOkTList st nf ρ f ch
+  | f, .subR c _ _ cins _ ch =>
+    !(ρ.idx c f).isEmpty &&
+    (cins.all fun kv =>
+      match kv.2.exp with
+      | .split c' _ src =>
+        c' != c || decide (indicesOf (evalRT st nf ρ f (liftSplitTy false kv.2.ty) src) = ρ.idx c f)
+      | _ => true) &&
+    (ρ.idx c f).all fun ix => idxOkTList st nf ρ (fset f c ix) ch
+def idxOkTList (st : StructTable) (nf : Nat) (ρ : Store) : ForkAssign → List STree → Bool
+  | _, [] => true
+  | f, t :: ts => idxOkT st nf ρ f t && idxOkTList st nf ρ f ts
+end
+
+mutual
+/-- the map calls of run-time size with the mapped calls around them (outermost first) -/
+def subROcc (dims : List String) : STree → List (String × List String)
+  | .node _ => []
+  | .sub c _ _ _ ch => subROccList (dims ++ [c]) ch
+  | .guard _ ch => subROccList dims ch
+  | .subR c _ _ _ _ ch => (c, dims) :: subROccList (dims ++ [c]) ch
+def subROccList (dims : List String) : List STree → List (String × List String)
+  | [] => []
+  | t :: ts => subROcc dims t ++ subROccList dims ts
+end
+
 /-- a stage instance of den as the code delivers it: "no value" (`dnull`) rendered as JSON null -/
 def eraseInst (i : Inst) : Inst := { i with args := J.erase i.args }
 
